@@ -14,7 +14,7 @@ import json
 import os
 import random
 import re
-from concurrent.futures import ProcessPoolExecutor
+from vcore.pool import pmap
 
 from vcore import tlc as T
 from vcore.tlaval import parse_dot
@@ -391,8 +391,8 @@ def main(run, replay=None):
                     if name == "Call" and args[3]:
                         run.nontrivial.add((cls, s, name, args[:2]))
     traces_by_shape = {}
-    with ProcessPoolExecutor(max_workers=min(16, os.cpu_count() or 4)) as ex:
-        for out in ex.map(walk_task, tasks):
+    if True:
+        for out in pmap(walk_task, tasks):
             run.evaluations += out["steps"]
             for dmsg in out["drift"]:
                 run.note_drift(dmsg)
